@@ -252,8 +252,8 @@ non_ip!(c22_q_nonip_memory, |_ip, port| Multiaddr::empty().with(Protocol::Memory
 non_ip!(c22_t_nonip_udp_quic, |_ip, port| Multiaddr::empty().with(Protocol::Udp(port)).with(Protocol::QuicV1));
 #[cfg(feature = "thorough")]
 non_ip!(c22_t_nonip_circuit_then_ip, |ip, _port| Multiaddr::empty().with(Protocol::P2pCircuit).with(Protocol::Ip4(ip)));
-#[cfg(feature = "thorough")]
-non_ip!(c22_t_nonip_dns4, |_ip, port| Multiaddr::empty().with(Protocol::Dns4("x".into())).with(Protocol::Tcp(port)));
+// (a DNS-first shape, `/dns4/x/tcp/P`, was tried and dropped: the string component read back
+// from the heap Multiaddr makes symbolic execution fork without bound; no result in 40 min)
 
 #[cfg(verif_replay)]
 include!(env!("VERIF_REPLAY_FILE"));
